@@ -620,3 +620,11 @@ _EQ_PROPS = {'A1': 'C01,C02,C03,C19', 'A2': 'C04,C03,C01', 'A3': 'C05,C06,C07,C0
 for _a, _p in _EQ_PROPS.items():
     for _e in ('e1', 'e2', 'e3', 'e4'):
         M.append(dict(id='eqagent-%s-%s' % (_a, _e), patch=_os.path.join(_P, 'eqagents', '%s-%s.diff' % (_a, _e)), props=_p, expect='silent', rule=None))
+# second audit round (other kinds of refactoring: functions split into steps, bodies moved into static helpers taking the object,
+# standard algorithms for loops, one unique_lock with explicit unlock/lock, conditional expressions, inlined helpers ...)
+_EQ2_PROPS = {'A1': 'C01,C02,C03,C10,C19', 'A2': 'C04,C03,C01', 'A3': 'C05,C06,C07,C08,C09,C11,C13', 'A4': 'C05,C06,C07,C08,C09,C10,C11,C13',
+              'A5': 'C14,C03,C10,C12,C04,C02', 'A6': 'C14,C05,C06,C07,C08,C09,C11', 'A7': 'C15,C16,C09', 'A8': 'C17,C18,C08', 'A9': 'C12,C13,C08',
+              'A10': 'C02,C03,C12,C20,C04'}
+for _a, _p in _EQ2_PROPS.items():
+    for _e in ('e1', 'e2', 'e3', 'e4'):
+        M.append(dict(id='eqagent2-%s-%s' % (_a, _e), patch=_os.path.join(_P, 'eqagents2', '%s-%s.diff' % (_a, _e)), props=_p, expect='silent', rule=None))
